@@ -7,7 +7,9 @@
              si<dec> sl<dec> su<dec>        set_int / set_int64 / set_uint64
              sd<16hex> sb<0|1>              set_double (bits) / set_boolean
              in<dec>                        json_object_int_inc
-   Observation per op (errno cleared before each call):
+             an op may be prefixed with "@<c>": errno is preset to c = 0 | R (ERANGE) | I (EINVAL) | M (ENOMEM) |
+             X (a large value, printed EOTHER) immediately before the call instead of being cleared
+   Observation per op (errno cleared, or preset by "@<c>", before each call):
      accessor: "<value> <errno>"   (gd: 16 hex digits of the bits, every NaN as 7ff8000000000000)
      mutator:  "<ret> <errno> <node>"  with the node in the jvtext format (containers as A<n> / O<n>)
    "UB" ends the line at the op where the model reaches undefined behaviour. *)
@@ -49,14 +51,19 @@ let run line =
     let out = ref [] in
     (try
       List.iter (fun s ->
+        let (e0, s) =
+          if String.length s > 2 && s.[0] = '@' then
+            ((match s.[1] with '0' -> E_NONE | 'R' -> ERANGE | 'I' -> EINVAL | 'M' -> ENOMEM | 'X' -> EOTHER | _ -> failwith "num preset"),
+             String.sub s 2 (String.length s - 2))
+          else (E_NONE, s) in
         let op = parse_op s in
-        let (ob, o') = num_step strtod !o op in
+        let (ob, o') = num_step strtod e0 !o op in
         o := o';
         match ob with
         | OGet (v, e) ->
           let vs = (match op with GDouble -> dbl_hex v | _ -> string_of_z v) in
           out := (vs ^ " " ^ errno_name e) :: !out
-        | OSet r -> out := (string_of_z r ^ " 0 " ^ ndump o') :: !out
+        | OSet (r, e) -> out := (string_of_z r ^ " " ^ errno_name e ^ " " ^ ndump o') :: !out
         | OUB -> out := "UB" :: !out; raise Exit) (split_on ';' ops)
     with Exit -> ());
     String.concat " | " (List.rev !out)
